@@ -33,7 +33,7 @@ if [ -n "$pkgs" ]; then
 else
   echo "demo is not a go test: see README (not auto-run)" >> $log
 fi
-rm -rf /verif/seeded/$dest; mkdir -p /verif/seeded/$dest/demo
+mkdir -p /verif/seeded/$dest; rm -rf /verif/seeded/$dest/demo /verif/seeded/$dest/patch.diff; mkdir -p /verif/seeded/$dest/demo
 git diff > /verif/seeded/$dest/patch.diff
 for f in $demos; do mkdir -p /verif/seeded/$dest/demo/$(dirname $f); cp $f /verif/seeded/$dest/demo/$f; done
 cp $out/README.md /verif/seeded/$dest/README.md 2>/dev/null
